@@ -80,7 +80,10 @@ Specials ==
     Sub(P2(64), One), P2(64), Add(P2(64), One), Sub(P2(128), One), P2(128), Add(P2(128), One),
     Sub(Sub(P2(128), P2(103)), One), Sub(P2(128), P2(103)), Add(Sub(P2(128), P2(103)), One), Sub(P2(128), P2(104)),
     Sub(Sub(P2(1024), P2(970)), One), Sub(P2(1024), P2(970)), Add(Sub(P2(1024), P2(970)), One), Sub(P2(1024), P2(971)),
-    Sub(P2(1024), One), P2(1024), <<>>, One, Add(P2(127), P2(103)), Sub(P2(128), One), Add(P2(54), One), Add(P2(54), FromNat(3))>>
+    Sub(P2(1024), One), P2(1024), <<>>, One, Add(P2(127), P2(103)), Sub(P2(128), One), Add(P2(54), One), Add(P2(54), FromNat(3)),
+    \* one and two bits wider than the mantissa, representable and not (the acceptance test of TryFrom<UBig|IBig> for f32/f64)
+    Add(P2(24), FromNat(2)), Add(P2(24), FromNat(3)), Add(P2(25), FromNat(2)), Add(P2(25), FromNat(4)), Add(P2(25), One), Sub(P2(25), One),
+    Add(P2(53), FromNat(2)), Add(P2(53), FromNat(3)), Add(P2(54), FromNat(2)), Add(P2(54), FromNat(4)), Sub(P2(54), One), P2(25), P2(54)>>
 
 Dec10(ds) == FromRadix(ds, 10)
 \* <<base, significand, exponent>>
@@ -149,6 +152,7 @@ Cases ==
          <<ToF(TvInt(IF s = 0 THEN "U" ELSE "I", s, x), 1, "HalfEven"), ToF(TvInt(IF s = 0 THEN "U" ELSE "I", s, x), 2, "HalfEven"),
            ToF(TvInt("I", s, x), 2, "HalfEven"),
            Conv(TvInt("I", s, x), "f32", 2), Conv(TvInt("I", s, x), "f64", 2), Conv(TvInt("I", s, x), "F", 10),
+           Conv(TvInt(IF s = 0 THEN "U" ELSE "I", s, x), "f32", 2), Conv(TvInt(IF s = 0 THEN "U" ELSE "I", s, x), "f64", 2),
            Conv(TvInt("I", s, x), "R", 2), ToF(TvR("R", s, x, One), 2, "HalfEven"), ToF(TvF("F", 2, s, x, 0, 0), 2, "HalfEven")>>
     [] kind = "intprim" ->
          LET w == Widths[a]
